@@ -8,6 +8,13 @@ fn usage() -> ! {
 }
 
 fn main() {
+    // millions of short runs allocate and free the same few structures: keep glibc from
+    // returning memory to the kernel (and mapping it again) on every run
+    unsafe {
+        libc::mallopt(libc::M_MMAP_THRESHOLD, 1 << 30);
+        libc::mallopt(libc::M_TRIM_THRESHOLD, 1 << 30);
+        libc::mallopt(libc::M_TOP_PAD, 64 << 20);
+    }
     let args: Vec<String> = std::env::args().collect();
     let reg = registry();
     match args.get(1).map(String::as_str) {
@@ -25,7 +32,12 @@ fn main() {
             if tier != "quick" && tier != "thorough" {
                 usage();
             }
-            std::process::exit(run_check(pc, tier, env_seed()));
+            // a panic of the harness itself is a harness error, never a verdict
+            let rc = std::panic::catch_unwind(|| run_check(pc, tier, env_seed())).unwrap_or_else(|_| {
+                eprintln!("harness error: the check driver panicked");
+                EXIT_HARNESS
+            });
+            std::process::exit(rc);
         }
         Some("dump") => {
             let (Some(id), Some(path)) = (args.get(2), args.get(3)) else { usage() };
